@@ -2410,6 +2410,8 @@ class GroupBy:
         max_diff: float | int
             The threshold distance for forming a new sub-group
         """
+        # same length and index checks as every other operation
+        self._preprocess_arguments(values, mask=None)
         return numba_funcs.group_nearby_members(
             group_key=self.group_ikey,
             values=values,
